@@ -24,6 +24,7 @@ MkConfs(flags, minmax, ubps) ==
 
 ConfsTiny   == MkConfs(FlagsOn, {<<1, 1>>}, {F})
 ConfsSmall  == MkConfs(FlagsOnOff, {<<1, 1>>, <<1, 2>>}, {F})
+ConfsOnOff1 == MkConfs(FlagsOnOff, {<<1, 1>>}, {F})
 ConfsHist   == MkConfs(FlagsHist, {<<1, 1>>, <<1, 2>>}, {F})
 ConfsMedium == MkConfs(FlagsHist, {<<1, 1>>, <<1, 2>>, <<2, 2>>}, {T})
 ConfsFull   == MkConfs(FlagsAll, {<<1, 1>>, <<1, 2>>, <<2, 2>>, <<2, 3>>}, {T, F})
